@@ -639,12 +639,13 @@ package mail
 // (1) no Go map is ranged over while output is produced (obligation kind "maporder", props/C11.json)
 // (2) the transfer encoding applied to a file is a function of File.Enc alone, not of the header cache
 //@ at mail.msgWriter.addFiles mail.msgWriter.writeBody#1 before assert[C11:encoding-from-file] encoding == (file.Enc != "" ? file.Enc : "base64")
-// (3) content producers built on a reader leave it at the start on every return, also after a failed copy
+// (3) content producers built on a reader leave it where they found it on every return, also after a failed copy:
+//     the private reader of fileFromReader at its start, a caller's read-seeker at the position it had
 //     (rpos: ghost read position; world.seekfails counts failed Seek calls of caller-supplied seekers)
 //@ func mail.fileFromReader$1 (writer) (n, err)
 //@   ensures[C11:rewound] byteReader.rpos == 0
 //@ func mail.fileFromReadSeeker$1 (writer) (n, err)
-//@   ensures[C11:rewound] reader.rpos == 0 || world.seekfails > old(world.seekfails)
+//@   ensures[C11:rewound] reader.rpos == old(reader.rpos) || world.seekfails > old(world.seekfails)
 // (4) multipart boundaries: the boundary a layer is written with is the one cached in the Msg afterwards, and once
 //     one is cached (and no fixed boundary is configured) every later render uses it (shared with C08: the entity
 //     that is hashed while signing and the entity that is emitted carry the same inner boundaries)
